@@ -157,6 +157,7 @@ class RecordRun:
         self.consumer_done = "-"
         self.consumer_bytes = 0
         self.async_close = False
+        self._late_checks = []
         self.loop_reader = False  # reads re-issued from inside the previous read's callback
         self.rearmed = 0
         self.schedule = []
@@ -296,8 +297,8 @@ class RecordRun:
             self._recv()
         elif a == "Read":
             idx = len(self.reads)
-            if not self.dst.transport.connected:
-                # a read issued after the connection is gone is not a "pending read" of the statement
+            if not self.dst.transport.connected and not self.dst._inbound_records:
+                # a read issued after the connection is gone, with nothing queued, is not a "pending read" of the statement
                 return
             self._issue_read()
         elif a == "Cut":
@@ -330,7 +331,11 @@ class RecordRun:
     def _issue_read(self):
         idx = len(self.reads)
         self.reads.append(None)
+        waiting = len(self.dst._inbound_records)
         d = self.dst.receive_record()
+        if waiting:
+            # ground truth: a record was waiting, so this read has its answer now - whatever has happened to the connection
+            self._late_checks.append((idx, waiting))
         d.addCallbacks(lambda r, idx=idx: self._read_ok(idx, r), lambda f, idx=idx: self.reads.__setitem__(idx, "err"))
 
     def _recv(self):
@@ -423,8 +428,15 @@ class RecordRun:
             if n not in ("BadNonce", "CryptoError", "ConnectionDone", "ConnectionLost", "BadHandshake", "ValueError"):
                 self.internal.append("%s: %s" % (n, str(e)[:80]))
         log.removeObserver(self.logged)
+        # what is still queued is read now (the application of the statement reads everything it was sent): after a loss too
+        if not self.consumer_mode:
+            for _ in range(len(self.dst._inbound_records)):
+                if not self.dst._inbound_records:
+                    break
+                self._issue_read()
+        late_failed = sum(1 for idx, _w in self._late_checks if self.reads[idx] != "ok")
         queued_ids = [self._ident(r, len(self.got) + k) for k, r in enumerate(self.dst._inbound_records)]
-        rec = {"tid": self.tid, "sent": list(range(1, len(self.payloads) + 1)), "got": self.got + queued_ids,
+        rec = {"lateReadFailed": late_failed,"tid": self.tid, "sent": list(range(1, len(self.payloads) + 1)), "got": self.got + queued_ids,
                "atTamper": self.at_tamper, "desync": self.desync, "state": state if state in ("records", "hung up", "lost") else str(state),
                "pendingReads": sum(1 for r in self.reads if r is None), "consumerDone": self.consumer_done,
                "consumerBytes": self.consumer_bytes, "sentBytes": sum(len(p) for p in self.payloads),
@@ -487,6 +499,8 @@ def rec_enabled(run, consts, manip):
         acts.append(("Cut", 0, "-"))
         if st == "hung up":
             acts += [("Lose", 0, "-")] * 2
+    elif not consts["ConsumerMode"] and len(run.reads) < consts["MaxReads"] and run.dst._inbound_records:
+        acts += [("Read", 0, "-")] * 2
     return acts
 
 
@@ -538,7 +552,7 @@ def run_c06(prop, tier):
             m = "MC_C06_" + name
             common.write_model(wd, m, "TransitRecords", consts,
                                invariants=["PrefixInv", "HungUpWhenBad", "NoReadLeftBehind", "ConsumerNotLeftBehind", "ConsumerTruth"],
-                               properties=["NothingAfterTamper"])
+                               properties=["NothingAfterTamper", "QueuedObtainable"])
             r = tlc.run(m + ".tla", m + ".cfg", cwd=wd.path, timeout=1800)
             cov["tlc_configs"][name] = {"distinct_states": r.distinct, "states_generated": r.generated, "depth": r.depth,
                                         "wall_s": round(r.wall, 1), "result": "ok" if r.ok else (r.violated or "error")}
@@ -583,6 +597,18 @@ def run_c06(prop, tier):
                                 acts += [("Read", 0, "-")] * (k - k // 2)
                             acts += [("Lose", 0, "-")]
                             behaviours.append((cm, k, acts, "cover"))
+        # late readers: records arrive, the peer closes (or the network cuts) and only then does the application ask - for some of
+        # them, for all, for more; with and without a manipulated frame behind the good ones
+        for k in (1, 2, 3):
+            for nread_before in range(0, k):
+                for closing in ("Cut", "Tamper"):
+                    acts = [("Send", x + 1, "-") for x in range(k)] + [("Read", 0, "-")] * nread_before + [("Recv", 0, "-")] * k
+                    if closing == "Tamper":
+                        acts += [("Inject", 1, 0), ("Recv", 0, "-"), ("Lose", 0, "-")]
+                    else:
+                        acts += [("Cut", 0, "-")]
+                    acts += [("Read", 0, "-")] * (k - nread_before)
+                    behaviours.append((False, k, acts, "late-reader"))
         # clean, slow transfers (no adversary at all): the connection must simply stay up and deliver
         for cm in (False, True):
             for k in (1, 3):
@@ -655,7 +681,7 @@ def run_c06(prop, tier):
         with open(wd.file("MC_TObs.tla"), "w") as f:
             f.write("---- MODULE MC_TObs ----\nEXTENDS TransitObs\n====\n")
         r = tlc.run("MC_TObs.tla", "MC_TObs.cfg", workers=1, cwd=wd.path, env={"OBS_FILE": path}, timeout=1800)
-        names = ["Prefix", "NothingAfter", "Down", "ReadsFail", "Consumer", "AllWhenClean", "NoInternal"]
+        names = ["Prefix", "NothingAfter", "Down", "ReadsFail", "Consumer", "AllWhenClean", "NoInternal", "QueuedObtainable"]
         verdicts = {t[1]: dict(zip(names, t[2])) for t in tlc.printed_tuples(r.stdout, "OBS")}
         if len(verdicts) != len(records):
             raise RuntimeError("observer evaluated %d of %d runs\n%s" % (len(verdicts), len(records), r.stdout[-2000:]))
